@@ -20,7 +20,7 @@ RULE = ("monitor A: generated spec graphs (registry points with filterable/raw f
         "affects it (A) / some line matches and some does not (B); distinct by hash of the case")
 ASSUMPTIONS = [
     "filter strings contain no NUL and no newline (cannot be passed in argv / cannot occur inside a line); lines contain no str.splitlines() break characters",
-    "how budgets registered on different components combine is not fixed by the statement: the reported budget must be one registered for that string on a contributing component",
+    "how budgets registered on different components combine is not fixed by the statement: the reported budget must be the one in force on a contributing component, which for a string registered several times on the same component is the largest (each registration is a promise that up to that many matching lines survive)",
     "a dropped matching line is legitimate only if for every filter it contains at least budget(filter) kept later lines contain that filter (implied by any correct budget accounting)",
     "filtering is globally enabled (INSIGHTS_FILTERS_ENABLED unset)",
 ]
@@ -293,12 +293,14 @@ def run_history(spec, ctx):
 
         def model_get(ds):
             up = upward(ds)
-            out = {}
+            per = {}
             for land, pats in registrations:
-                if land & up:
+                for c in land & up:
                     for p, mm in pats.items():
-                        out.setdefault(p, set()).add(mm)
-            return out
+                        per.setdefault(p, {})[c] = max(mm, per.get(p, {}).get(c, 0))
+            # registrations of one string on one component combine to the largest budget (add_filter documents and
+            # get_filters reports "the max match count specified by add_filter"); across components nothing is fixed
+            return dict((p, set(v.values())) for p, v in per.items())
         nt = False
         looked = set()
         for stepno, step in enumerate(spec["steps"]):
